@@ -45,7 +45,7 @@ func run() error {
 	flag.BoolVar(&cfg.write, "w", true, "Write result to (source) file instead of stdout")
 	flag.BoolVar(&cfg.excludeJSONMinus, "json", false, "Exclude json:\"-\"")
 	flag.BoolVar(&cfg.excludeSQLMinus, "sql", true, "Exclude sql:\"-\"")
-	flag.BoolVar(&cfg.excludePrivate, "private", true, "Exclude private fields (starting with lower case letter)")
+	flag.BoolVar(&cfg.excludePrivate, "private", true, "Exclude private fields (not starting with an upper case letter)")
 
 	flag.Parse()
 
@@ -140,7 +140,10 @@ func (c *config) rewrite(node ast.Node) (ast.Node, error) {
 			name := fieldName(f)
 			if c.excludePrivate {
 				r, _ := utf8.DecodeRuneInString(name)
-				if unicode.IsLower(r) {
+				if !unicode.IsUpper(r) {
+					// Not exported (Go's rule: the first rune must be an
+					// upper case letter), e.g. _ or a name in a script
+					// without case
 					continue
 				}
 			}
